@@ -90,7 +90,7 @@ def est_count(t):
 
 
 def gen_cases(ctx, res):
-    rng = ctx.rng
+    rng = ctx.rng.fork('C10')      # hashed: consecutive VERIF_SEED values of the SplitMix64 in vlib are the same stream shifted by one draw
     out = []        # dict(flg, nsub, pats, cases, trees)
     ntrip = 0
     target = 20000 if ctx.quick else 120000
